@@ -91,12 +91,19 @@ impl DualConnector {
         };
         let (right_conn_id_map, right_feats_map) = generate_feature_map(right_feat_ids_tmp);
         let (left_conn_id_map, left_feats_map) = generate_feature_map(left_feat_ids_tmp);
+        // Pads with INVALID_FEATURE_ID (not with the id of the empty feature) so that the
+        // padding lanes never match an entry of the scorer.
+        let to_padded_simd_vec = |feats: &[U31]| {
+            let mut feats = feats.to_vec();
+            feats.resize(feats.len().next_multiple_of(SIMD_SIZE), INVALID_FEATURE_ID);
+            U31x8::to_simd_vec(&feats)
+        };
         let mut matrix = vec![0; right_feats_map.len() * left_feats_map.len()];
         for (right_feats, rid) in &right_feats_map {
             for (left_feats, lid) in &left_feats_map {
                 let cost = scorer.accumulate_cost(
-                    &U31x8::to_simd_vec(right_feats),
-                    &U31x8::to_simd_vec(left_feats),
+                    &to_padded_simd_vec(right_feats),
+                    &to_padded_simd_vec(left_feats),
                 );
                 let index = *lid * right_feats_map.len() + *rid;
                 matrix[index] = cost.clamp(i16::MIN as i32, i16::MAX as i32) as i16;
